@@ -217,7 +217,7 @@ def _fuzz(target, seed, steps, lsb0):
             if target in CLASSES:
                 obj = CLASSES[target](bin=init) if init else CLASSES[target]()
                 if hasattr(obj, "pos") and n0:
-                    obj.pos = r.randint(0, n0)
+                    obj.pos = r.choice([n0, n0, 0, r.randint(0, n0)])
             elif target == "Array":
                 obj = bitstring.Array(r.choice(["u8", "i4", "float16", "hex2", "bool", ">H", "bytes1", "e4m3mxfp", "u13"]), None)
                 obj.data = BitArray(bin=init) if init else BitArray()
@@ -231,7 +231,7 @@ def _fuzz(target, seed, steps, lsb0):
         log = []
         for step in range(steps):
             n = len(obj) if isinstance(obj, Bits) else (len(obj.data) if obj is not None and hasattr(obj, "data") else 8)
-            desc, thunk = None, None
+            desc, thunk, involved = None, None, []
             if target == "Dtype":
                 a1, a2, a3 = r.choice(DTYPES + ["uint", "float", "bytes", "hex"]), r.choice([None, 0, 1, 8, 16, 17, -1, 64, 10 ** 6]), r.choice([None, None, 2, 0.5, 0])
                 mode = r.choice(["new", "build", "parse", "str"])
@@ -277,7 +277,7 @@ def _fuzz(target, seed, steps, lsb0):
                     if name in ("__getitem__", "__delitem__"):
                         args = [_arg(r, "key", obj, n)]
                     elif name == "__setitem__":
-                        args = [_arg(r, "key", obj, n), r.choice([0, 1, "0b1", "0b101", 2, -1, Bits(), "", 255, [1, 0]])]
+                        args = [_arg(r, "key", obj, n), r.choice([0, 1, "0b1", "0b101", 2, -1, Bits(), "", "", Bits(), 255, [1, 0], []])]
                     elif name in ("__mul__", "__rmul__", "__imul__"):
                         args = [r.choice([-1, 0, 1, 2, 3, 17])]
                     elif name in ("__lshift__", "__rshift__", "__ilshift__", "__irshift__"):
@@ -301,10 +301,25 @@ def _fuzz(target, seed, steps, lsb0):
                         if hasattr(res, "__next__"):                 # drain generators (cut, split, findall)
                             res = [x for _, x in zip(range(2000), res)]
                         return res
+                    involved = [(a, a.bin) for a in args if isinstance(a, Bits) and not isinstance(a, BitArray) and a is not obj]
                     desc = f".{name}({', '.join(repr(a)[:40] for a in args)})"
+            if target in ("Dtype",):
+                involved = []
+            elif target == "pack":
+                involved = [(a, a.bin) for a in vals if isinstance(a, Bits) and not isinstance(a, BitArray)]
+            elif desc is not None and not desc.startswith(".") :
+                involved = []
             try:
-                thunk()
+                res = thunk()
                 outcome = "ok"
+                # a mutable bitstring handed back by the call must not share state with the immutable objects involved:
+                # change it in place, then the immutables are re-checked below
+                for rr in (res if isinstance(res, (list, tuple)) else [res]):
+                    if isinstance(rr, BitArray) and rr is not obj:
+                        try:
+                            rr.append("0b1"); rr.invert()
+                        except Exception:            # noqa: BLE001
+                            pass
             except RecursionError:
                 outcome = "internal:RecursionError"
             except MemoryError:
@@ -318,6 +333,11 @@ def _fuzz(target, seed, steps, lsb0):
             if outcome.startswith("internal"):
                 return "err internal", {"offending": desc, "why": outcome, "history": log[-6:], "target": target, "opts": opts0}
             bad = _valid(obj, snap) if obj is not None else None
+            if not bad:
+                for a, before in involved:
+                    if a.bin != before:
+                        bad = f"immutable argument changed from {wire(before)} to {wire(a)}"
+                        break
             if bad:
                 return "err internal", {"offending": desc, "why": "invalid object: " + bad, "history": log[-6:], "target": target, "opts": opts0}
             o = bitstring.options
